@@ -1,6 +1,6 @@
 package http
 
-// Open known finding (C15), one concrete input: see known_findings.json.
+// Replay family "middleware/http": requests against the real net/http integration.
 
 import (
 	"net/http"
@@ -10,9 +10,9 @@ import (
 	"github.com/junioryono/godi/v4"
 )
 
-// C15: WithErrorHandler(nil) stores nil although the Config comment promises the default handler for nil: the first request whose scope
+// http.WithErrorHandler$1#post[a_nil_handler_keeps_the_default]: WithErrorHandler(nil) stored nil although the Config comment promises the default handler for nil: the first request whose scope
 // cannot be created calls a nil function and the middleware panics (same in chi, gin, echo and fiber, and for the other With*Handler options).
-func TestOpen_NilErrorHandlerPanics(t *testing.T) {
+func TestReplay_NilErrorHandlerKeepsTheDefault(t *testing.T) {
 	p, err := godi.NewCollection().Build()
 	if err != nil {
 		t.Fatal(err)
@@ -21,7 +21,7 @@ func TestOpen_NilErrorHandlerPanics(t *testing.T) {
 	h := ScopeMiddleware(p, WithErrorHandler(nil))(http.HandlerFunc(func(w http.ResponseWriter, r *http.Request) {}))
 	defer func() {
 		if r := recover(); r != nil {
-			t.Errorf("REPLAY-CONFIRMED open[nil_error_handler]: the middleware panicked on a request whose scope could not be created: %v", r)
+			t.Errorf("REPLAY-CONFIRMED http.WithErrorHandler$1#post[a_nil_handler_keeps_the_default]: the middleware panicked on a request whose scope could not be created: %v", r)
 		}
 	}()
 	h.ServeHTTP(httptest.NewRecorder(), httptest.NewRequest("GET", "/", nil))
